@@ -188,3 +188,35 @@ CHECKS["C19"] = dict(
               "allocation audit during symbolic execution of the structural rules")
 for _p in []:
     NA[_p] = "check under construction in this session (not yet registered); see DESIGN.md section 5 for the plan"
+
+# additions of the fifth round of seeded changes (kept separate so that the base texts above stay as they were reviewed)
+_ADD = {
+    "C01": "; rule-less wide operators (8 * rows < cols: the generic densification multiplies the identity from the left) and sums of >= 3 terms "
+           "whose first / middle term returns its operand (aliasing accumulations)",
+    "C02": "; all-real sums of >= 3 terms with an Identity first / in the middle (an accumulation aliasing the left operand)",
+    "C05": "; products of an operator with a slice / reordering of itself, off-diagonal blocks whose selectors coincide only after clipping, and "
+           "declare-after-query sequences in both query orders (the operand answers isa() as before, the copy reports its declaration)",
+    "C06": "; symbolic arrays report the array-API device of NumPy >= 2 and an exception of the float run inside a guarded call counts although the "
+           "symbolic run completed (this is how inv(c * A) was found)",
+    "C07": "; operators declared PSD sent through LU() (Dense, Sum, rule-less, Kronecker)",
+    "C08": "; sums in which one operator object occurs twice; exact probing of an operator that returns its operand (or a view) followed by probing "
+           "of an unrelated operator of the same size",
+    "C09": "; symmetric matrices with a repeated eigenvalue through the general eigensolver, whose stand-in returns a legitimate non-orthogonal basis of the "
+           "degenerate eigenspace",
+    "C10": "; self-adjoint operator with a repeated eigenvalue through Eig() / Eigh() / Auto() (non-orthogonal LAPACK basis modelled)",
+    "C11": "; the same matrices without the PSD declaration (alone and as Kronecker / BlockDiag factors), BlockDiag nested with multiplicities at both "
+           "levels, and the operator's parameters after the factorisation (flatten unchanged, rebuilt from 4 * parameters factorised on its own)",
+    "C12": "; a zero right-hand side (alone or as one column) together with a non-zero initial guess",
+    "C13": "; the Givens-rotation variant (use_triangular=True) real and complex, and initial residuals of norm 1e-14 .. 1e-11",
+    "C14": "; two factorisations of the same size / step count in one process, examined after both calls",
+    "C15": "; two factorisations of the same size / step count in one process, examined after both calls",
+    "C16": "; pinv of lazy products with square outer and non-square interior factors",
+    "C17": "; complex operators (the estimate of a complex diagonal is that diagonal, not its conjugate; complex square root and NumPy's lexicographic "
+           "complex ordering of the stopping rule are modelled)",
+    "C18": "; every option object alive before a call (shared default arguments included) is unchanged by it; operators that were used before they are "
+           "flattened; an operator rebuilt from another operator's parameters represents that operator",
+    "C19": "; isqrt / log / pow(0.5) / trace(Auto) audits; peak memory of a product with a 96-term Sum / 96-factor Product compared with 4 terms",
+    "C20": "; off-diagonal blocks of annotated operators whose selectors coincide only after clipping",
+}
+for _k, _v in _ADD.items():
+    CHECKS[_k]["text"] += _v
